@@ -6,7 +6,7 @@ CONSTANTS
   AllowReg = TRUE
   CopyOpts = TRUE
   TightCap = TRUE
-  CopyArgs = FALSE
+  CopyArgs = TRUE
   HtmlDep = FALSE
 VIEW View
 INVARIANT NoBlocking
